@@ -57,19 +57,20 @@ def getNsnnwn (bs : Bits) : Option (Nat × Bits) :=
         let len := v % 64 * 4 + w
         if len / 128 % 2 = 1 then none
         else if len = 0 then some (0, r2)
-        else if len ≥ 3 then none
+        else if len > 3 then none
         else getFewBits (8 * len) r2
     else some (v, r)
 
-/-- `uper_put_nsnnwn(po, n)`.  NOTE (F29): for `n ≥ 64` the marker bit `1` is not written. -/
+/-- `uper_put_nsnnwn(po, n)`.  For `n ≥ 64`: the marker bit `1` of X.691 §10.6.2 (finding F29 repaired),
+    the length octet, the octets. -/
 def putNsnnwn (n : Int) : Option Bits :=
   if n ≤ 63 then
     if n < 0 then none else putFewBits 7 n.toNat
   else
     let put (bytes : Nat) : Option Bits :=
-      match putFewBits 8 bytes, putFewBits (8 * bytes) n.toNat with
-      | some a, some b => some (a ++ b)
-      | _, _ => none
+      match putFewBits 1 1, putFewBits 8 bytes, putFewBits (8 * bytes) n.toNat with
+      | some m, some a, some b => some (m ++ a ++ b)
+      | _, _, _ => none
     if n < 256 then put 1 else if n < 65536 then put 2 else if n < 256 * 65536 then put 3 else none
 
 /-- `uper_get_constrained_whole_number(pd, &v, nbits)`, `0 ≤ nbits` -/
@@ -113,13 +114,17 @@ def putLength (n : Nat) : Bits × Nat × Bool :=
     if m > 4 then (natBits 8 (192 + 4), 4 * 16384, false)
     else (natBits 8 (192 + m), m * 16384, n % 16384 == 0)       -- `0xC0 | m`
 
-/-- `uper_put_nslength(po, length)`.  NOTE (F64): for `length > 64` the bit `1` of X.691 §10.9.3.4 is not written. -/
+/-- `uper_put_nslength(po, length)`.  For `length > 64`: the bit `1` of X.691 §10.9.3.4 (finding F64 repaired),
+    then `uper_put_length`. -/
 def putNslength (n : Nat) : Option Bits :=
   if n ≤ 64 then
     if n = 0 then none else putFewBits 7 (n - 1)
   else
-    let (b, cov, eom) := putLength n
-    if cov ≠ n ∨ eom then none else some b
+    match putFewBits 1 1 with
+    | none => none
+    | some m =>
+      let (b, cov, eom) := putLength n
+      if cov ≠ n ∨ eom then none else some (m ++ b)
 
 /-! ### the length-determinant loops of the callers -/
 
